@@ -36,6 +36,16 @@ ANCHORS = [
     ("src/easynetwork/lowlevel/_stream.py", "BufferedStreamDataConsumer.next"),
     ("src/easynetwork/lowlevel/_stream.py", "BufferedStreamDataConsumer.get_write_buffer"),
     ("src/easynetwork/lowlevel/_stream.py", "BufferedStreamDataConsumer.__save_remainder_in_buffer"),
+    ("src/easynetwork/serializers/json.py", "_JSONParser.raw_parse"),
+    ("src/easynetwork/serializers/json.py", "_JSONParser._split_partial_document"),
+    ("src/easynetwork/serializers/json.py", "_JSONParser._escaped"),
+    ("src/easynetwork/serializers/json.py", "JSONSerializer.incremental_serialize"),
+    ("src/easynetwork/serializers/json.py", "JSONSerializer.incremental_deserialize"),
+    ("src/easynetwork/serializers/base_stream.py", "FileBasedPacketSerializer.__generic_incremental_deserialize"),
+    ("src/easynetwork/serializers/base_stream.py", "_wrap_generic_incremental_deserialize"),
+    ("src/easynetwork/serializers/base_stream.py", "_wrap_generic_buffered_incremental_deserialize"),
+    ("src/easynetwork/serializers/wrapper/compressor.py", "AbstractCompressorSerializer.incremental_serialize"),
+    ("src/easynetwork/serializers/wrapper/compressor.py", "AbstractCompressorSerializer.__generic_incremental_deserialize"),
 ]
 RULE = ("packet lists of length 0-4 for: StringLineSerializer (LF/CR/CRLF x keep_end x ascii/latin-1), AutoSeparated test "
         "subclass (separators of 1-3 bytes incl. self-overlapping), Base64EncoderSerializer (standard/urlsafe x checksum, "
